@@ -319,75 +319,94 @@ Definition completes (stages : list stage) (seen : list Z) (e : bev) : bool :=
 
 Definition btick (s : bst) (t : Z) : bst := bstep s (BTick (t - b_clock s)).
 
+(* The replay keeps a small set of candidate model states.  After a Pending poll the
+   thread reads the clock twice (before recv_timeout/try_recv, and after having been
+   woken) at unobserved moments between the end of that poll (lo) and its next
+   observed action (hi = begin of the next poll / the return): both readings are
+   tried at either end.  Wake events are applied without moving the thread's clock. *)
+Definition bpc_eqb (a b : bpc) : bool :=
+  match a, b with
+  | BPolling, BPolling | BChecking, BChecking | BWoken, BWoken | BLastPoll, BLastPoll => true
+  | BWaiting x, BWaiting y => x =? y
+  | BDone (BOk v) x, BDone (BOk w) y => (v =? w) && (x =? y)
+  | BDone BTimeout x, BDone BTimeout y => x =? y
+  | _, _ => false
+  end.
+Definition cand_eqb (a b : bst) : bool :=
+  bpc_eqb (b_pc a) (b_pc b) && Bool.eqb (b_tok a) (b_tok b) && (b_clock a =? b_clock b) &&
+  Bool.eqb (match b_done a with Some _ => true | None => false end)
+           (match b_done b with Some _ => true | None => false end).
+Fixpoint dedup (l : list bst) : list bst :=
+  match l with
+  | [] => []
+  | x :: t => if existsb (cand_eqb x) t then dedup t else x :: dedup t
+  end.
+
+(* from BChecking: first reading at c1, recv (if a token is there), second reading at c2 *)
+Definition after_pending (s : bst) (c1 c2 : Z) : bst :=
+  let s1 := bstep (btick s c1) BCheck in
+  let s2 := match b_pc s1 with BWaiting _ => bstep s1 BRecvOk | _ => s1 end in
+  match b_pc s2 with
+  | BWoken => bstep (btick s2 c2) BCheck2
+  | _ => s2
+  end.
+
+Definition expand (lo hi : Z) (s : bst) : list bst :=
+  match b_pc s with
+  | BChecking => [after_pending s lo lo; after_pending s lo hi; after_pending s hi hi]
+  | _ => [s]
+  end.
+
 Record brs : Type := mkBr {
-  br_a : bst;              (* the thread read the clock right after the Pending poll *)
-  br_b : option bst;       (* ... or has not read it yet *)
+  br_c : list bst;         (* candidates *)
+  br_side : list bst;      (* the candidates as they were before the first wake logged after the time
+                              limit: the thread may have timed out before that wake (its return is
+                              logged later); only used to explain a Timeout return *)
+  br_lo : Z;               (* end of the last Pending poll *)
   br_seen : list Z;        (* stages for which a wake was seen *)
   br_ret : option (Z * Z)
 }.
 
-Definition both (f : bst -> bst) (r : brs) : brs :=
-  mkBr (f (br_a r)) (option_map f (br_b r)) (br_seen r) (br_ret r).
+Definition can_poll (s : bst) : bool :=
+  match b_pc s with BPolling | BLastPoll => true | _ => false end.
 
-Definition to_polling (s : bst) : option bst :=
-  match b_pc s with
-  | BPolling => Some s
-  | BWaiting _ => let s' := bstep s BRecvOk in match b_pc s' with BPolling => Some s' | _ => None end
-  | _ => None
-  end.
-
-Definition bt_ev (stages : list stage) (r : brs) (e : bev) : option brs :=
+Definition bt_ev (stages : list stage) (r : brs) (e : bev) : brs :=
   let cpl := completes stages (br_seen r) e in
   match e with
-  | XStart _ => Some r
+  | XStart _ => r
   | XPollP t0 t1 =>
-      match to_polling (btick (br_a r) t0) with
-      | None => None
-      | Some s =>
-          let s1 := bstep s BPoll in
-          match b_pc s1 with
-          | BChecking => Some (mkBr s1 None (br_seen r) (br_ret r))
-          | _ => None
-          end
-      end
+      let cs := flat_map (expand (br_lo r) t0) (br_c r) in
+      let cs := map (fun s => bstep (btick s t0) BPoll) (filter can_poll cs) in
+      mkBr (dedup cs) [] t1 (br_seen r) (br_ret r)
   | XPollR t0 t1 =>
-      match to_polling (btick (br_a r) t1) with
-      | None => None
-      | Some s =>
-          let s1 := bstep s BPoll in
-          match b_pc s1 with
-          | BDone (BOk _) _ _ => Some (mkBr s1 None (br_seen r) (br_ret r))
-          | _ => None
-          end
-      end
+      let cs := flat_map (expand (br_lo r) t0) (br_c r) in
+      let cs := map (fun s => bstep (btick s t1) BPoll) (filter can_poll cs) in
+      mkBr (dedup (filter (fun s => match b_pc s with BDone (BOk _) _ => true | _ => false end) cs))
+           [] t1 (br_seen r) (br_ret r)
   | XWake st t =>
-      let f := fun s => bstep (btick s t) (if cpl then BComplete else BSpurious) in
-      Some (mkBr (f (br_a r)) (option_map f (br_b r)) (st :: br_seen r) (br_ret r))
+      let f := fun s => bstep s (if cpl then BComplete else BSpurious) in
+      let side := match br_side r with
+                  | [] => if existsb (fun s => b_start s + b_dur s <=? t) (br_c r) then br_c r else []
+                  | l => l
+                  end in
+      mkBr (map f (br_c r)) side (br_lo r) (st :: br_seen r) (br_ret r)
   | XTe st t =>
-      if cpl then Some (both (fun s => bstep (btick s t) BComplete) r) else Some r
-  | XWoke _ _ | XTs _ _ _ => Some r
-  | XRet t code v => Some (mkBr (br_a r) (br_b r) (br_seen r) (Some (code, v)))
-  | _ => None
+      if cpl then mkBr (map (fun s => bstep s BComplete) (br_c r)) (br_side r) (br_lo r) (br_seen r) (br_ret r)
+      else r
+  | XWoke _ _ | XTs _ _ _ => r
+  | XRet t code v =>
+      let cs := flat_map (expand (br_lo r) t) (br_c r ++ br_side r) in
+      (* blocked in recv_timeout without a token: it times out *)
+      let cs := map (fun s => match b_pc s with
+                              | BWaiting _ => bstep (btick s t) BRecvTimeout
+                              | _ => s
+                              end) cs in
+      mkBr (dedup cs) [] (br_lo r) (br_seen r) (Some (code, v))
+  | _ => mkBr [] [] (br_lo r) (br_seen r) (br_ret r)
   end.
 
-(* after a Pending poll has ended (t1): the clock read happens now (a) or later (b) *)
-Definition bt_after_pending (r : brs) (t1 : Z) : brs :=
-  match b_pc (br_a r) with
-  | BChecking => mkBr (bstep (btick (br_a r) t1) BCheck) (Some (btick (br_a r) t1)) (br_seen r) (br_ret r)
-  | _ => r
-  end.
-
-Fixpoint bt_replay (stages : list stage) (evs : list bev) (r : brs) : option brs :=
-  match evs with
-  | [] => Some r
-  | e :: t =>
-      match bt_ev stages r e with
-      | None => None
-      | Some r' =>
-          let r'' := match e with XPollP _ t1 => bt_after_pending r' t1 | _ => r' end in
-          bt_replay stages t r''
-      end
-  end.
+Definition bt_replay (stages : list stage) (evs : list bev) (r : brs) : brs :=
+  fold_left (bt_ev stages) evs r.
 
 Definition ret_time (evs : list bev) : Z :=
   fold_left (fun a e => match e with XRet t _ _ => t | _ => a end) evs 0.
@@ -400,22 +419,13 @@ Definition first_poll_time (evs : list bev) : Z :=
   | _ => start_time evs
   end.
 
-Definition is_timeout (s : bst) : bool := match b_pc s with BDone BTimeout _ _ => true | _ => false end.
-
 Definition bt_model_with (start dur val : Z) (stages : list stage) (evs : list bev) : bool :=
   let s0 := match stages with [] => bstep (binit start dur val) BComplete | _ => binit start dur val end in
-  match bt_replay stages evs (mkBr s0 None [] None) with
-  | None => false
-  | Some r =>
-      let t := ret_time evs in
-      match br_ret r with
-      | Some (1, v) => match b_pc (br_a r) with BDone (BOk v') _ _ => v' =? v | _ => false end
-      | Some (0, _) =>
-          is_timeout (bstep (btick (br_a r) t) BRecvTimeout) ||
-          is_timeout (br_a r) ||
-          match br_b r with Some s => is_timeout (bstep (btick s t) BCheck) | None => false end
-      | _ => false
-      end
+  let r := bt_replay stages evs (mkBr [s0] [] start [] None) in
+  match br_ret r with
+  | Some (1, v) => existsb (fun s => match b_pc s with BDone (BOk v') _ => v' =? v | _ => false end) (br_c r)
+  | Some (0, _) => existsb (fun s => match b_pc s with BDone BTimeout _ => true | _ => false end) (br_c r)
+  | _ => false
   end.
 
 (* start_instant lies between the call and the first poll: either bound may be the
@@ -437,8 +447,6 @@ Definition completed_at (stages : list stage) (evs : list bev) : option Z :=
       end
   | _ => None
   end.
-Definition last_poll (evs : list bev) : option (Z * Z) :=
-  fold_left (fun a e => match e with XPollP t0 t1 => Some (t0, t1) | XPollR t0 t1 => Some (t0, t1) | _ => a end) evs None.
 
 (* sleeps inside the future never complete early *)
 Definition stage_sleeps_ok (evs : list bev) : bool :=
@@ -458,24 +466,13 @@ Definition bt_oracle_ok (dur val : Z) (stages : list stage) (evs : list bev) : b
   | Some (0, _) =>
       (* Timeout: not before the duration has passed ... *)
       (start_time evs + dur <=? ret_time evs) &&
-      (* ... and not when the future had completed within the duration *)
+      (* ... and not when the future had completed (and its wake call had returned)
+         within the duration *)
       match completed_at stages evs with
       | Some tc => start_time evs + dur <? tc
       | None => true
       end
   | _ => false
-  end.
-
-(* class 1: Timeout although the future completed within the duration, where the
-   last poll began before the completion and ended after the duration had passed
-   (the else branch returns Timeout without looking at the channel) *)
-Definition bt_known (dur : Z) (stages : list stage) (evs : list bev) : N :=
-  match ret_of evs, completed_at stages evs, last_poll evs with
-  | Some (0, _), Some tc, Some (p0, p1) =>
-      if (start_time evs + dur <=? ret_time evs) && (tc <=? start_time evs + dur) &&
-         (p0 <=? tc) && (start_time evs + dur <=? p1) && stage_sleeps_ok evs
-      then 1%N else 0%N
-  | _, _, _ => 0%N
   end.
 
 (* ================================================================ block_on *)
@@ -544,8 +541,5 @@ Definition C42_oracle_ok (c : C42_case) : bool :=
   | CEx n evs => ex_ok n evs
   end.
 
-Definition C42_known (c : C42_case) : N :=
-  match c with
-  | CBt dur _ stages evs => bt_known dur stages evs
-  | _ => 0%N
-  end.
+(* no known class is left (C42-timeout-unseen-wake fixed by 8591c31) *)
+Definition C42_known (c : C42_case) : N := 0%N.
